@@ -1,6 +1,6 @@
 //! C12 — indexed FASTA random access.
 //!
-//! `c12 <file hex> <fai hex> cuts:<n1,n2,…> sched:<s1,s2,…> <op>;<op>;… => <run>|<run>|…`
+//! `c12 h <file hex> <fai hex> cuts:<n1,n2,…> sched:<s1,s2,…> <op>;<op>;… => <run>|<run>|…`
 //!
 //! One case = one FASTA file + its `.fai` text (computed here, independently of rust-bio) + a history of
 //! operations on ONE `IndexedReader`.  The history is run once per entry of `cuts` on a fresh reader over
@@ -131,9 +131,10 @@ fn run_ops(file: &[u8], fai: &[u8], sched: &[usize], ops: &[&str]) -> Result<Str
 }
 
 pub fn exec(toks: &[&str]) -> Result<String, String> {
-    if toks.len() != 5 {
+    if toks.len() != 6 || toks[0] != "h" {
         return Err("arity".into());
     }
+    let toks = &toks[1..];
     let file = unhex(toks[0])?;
     let fai = unhex(toks[1])?;
     let cuts: Vec<usize> = parse_list(kv(toks[2], "cuts")?, ',')?;
@@ -400,7 +401,7 @@ fn span_for(rng: &mut Rng, r: &RecSpec) -> (usize, usize) {
 
 fn push_case(out: &mut Vec<String>, b: &Built, cuts: &[usize], sched: &[usize], ops: &[String]) {
     out.push(format!(
-        "{} {} cuts:{} sched:{} {}",
+        "h {} {} cuts:{} sched:{} {}",
         hex(&b.file),
         hex(&b.fai),
         join(cuts, ","),
